@@ -813,6 +813,7 @@ func FuzzC09T(f *testing.F) {
 			"a": {Kind: "block", Text: a}, "aa": {Kind: "block", Text: aa},
 		}}}
 		if err := ev.Guard(func() error { return oracleC09(c) }); err != nil {
+			ev.FuzzFail("C09", "tree", c, err)
 			t.Fatal(err)
 		}
 	})
@@ -837,7 +838,13 @@ func FuzzC09Sprintf(f *testing.F) {
 			n.List = append(n.List, &c9Node{Kind: "block", Text: fmt.Sprintf("<%d%%v>", i)})
 		}
 		if err := ev.Guard(func() error { return oracleC09(c9Case{Root: n}) }); err != nil {
+			ev.FuzzFail("C09", "tree", c9Case{Root: n}, err)
 			t.Fatal(err)
 		}
 	})
+}
+
+// FuzzC09Tree lets the coverage-guided fuzzer drive the tree generator.
+func FuzzC09Tree(f *testing.F) {
+	f.Fuzz(rapid.MakeFuzz(ev.FuzzProp("C09", ev.Sub[c9Case]{Name: "tree", Gen: genC09, Oracle: oracleC09})))
 }
